@@ -40,13 +40,22 @@ def obligations(tier, H):
                     add(dict(cfg, request=("const", None), parse="raises", exc=exc, msg=msg, instance=inst), [])
     # ---- structurally invalid objects (all skeletons that are invalid) ---------------
     skels = D.skeletons_full() if thorough else D.skeletons_pairwise()
+    extra_pairs = [(k, inst) for k in D.skeletons_pairwise() for inst in ("plain", "dispatching")] if thorough else []
+    for kinds, inst in extra_pairs:
+        valid_method = kinds.get("method", "absent").startswith("m:")
+        valid_params = kinds.get("params", "absent") in ("absent", "list", "dict", "elist", "edict", "args1", "args2", "args3", "kwab", "kwa", "kwx", "nested")
+        has_version = kinds.get("jsonrpc", "absent") != "absent" or kinds.get("id", "absent") != "absent"
+        if valid_method and valid_params and has_version:
+            continue
+        spec, leaves = D.entry(kinds)
+        add({"request": spec, "skeleton": kinds, "instance": inst}, leaves)
     for kinds in skels:
         valid_method = kinds.get("method", "absent").startswith("m:")
         valid_params = kinds.get("params", "absent") in ("absent", "list", "dict", "elist", "edict", "args1", "args2", "args3", "kwab", "kwa", "kwx", "nested")
         has_version = kinds.get("jsonrpc", "absent") != "absent" or kinds.get("id", "absent") != "absent"
         if valid_method and valid_params and has_version:
             continue
-        for inst in ((None, "plain", "dispatching") if thorough or valid_method else (None, "dispatching")):
+        for inst in ((None, "plain", "dispatching") if valid_method else (None, "dispatching") if not thorough else (None,)):
             spec, leaves = D.entry(kinds)
             add({"request": spec, "skeleton": kinds, "instance": inst}, leaves)
     # ---- method lookup: function registry and instances -------------------------------
